@@ -28,8 +28,11 @@ class DictValue(GenericValue):
             child_node = None
             if self._ast_node is not None:
                 assert isinstance(self._ast_node, ast.Dict)
-                if index in old_value and not any(
-                    key is None for key in self._ast_node.keys
+                if (
+                    index in old_value
+                    and not any(key is None for key in self._ast_node.keys)
+                    # a key which is written twice: positions do not match
+                    and len(old_value) == len(self._ast_node.keys)
                 ):
                     pos = list(old_value.keys()).index(index)
                     child_node = self._ast_node.values[pos]
@@ -69,8 +72,11 @@ class DictValue(GenericValue):
             values = [None] * len(self._old_value)
         else:
             assert isinstance(self._ast_node, ast.Dict)
-            if any(key is None for key in self._ast_node.keys):
-                # dict unpacking is not supported inside snapshots
+            if any(key is None for key in self._ast_node.keys) or len(
+                self._ast_node.keys
+            ) != len(self._old_value):
+                # dict unpacking (and keys which are written twice) are not
+                # supported inside snapshots: values can not be mapped to nodes
                 return
             values = self._ast_node.values
 
